@@ -28,7 +28,12 @@ func jsonToPlainStringMap(resultKey string, result map[string]string, data []byt
 		case jsonparser.Object:
 			return jsonToPlainStringMap(newResultKey, result, value)
 		case jsonparser.String:
-			result[newResultKey] = string(value)
+			// value is the raw text between the quotes: decode the JSON escapes
+			str, err := jsonparser.ParseString(value)
+			if err != nil {
+				return err
+			}
+			result[newResultKey] = str
 		case jsonparser.Number:
 			result[newResultKey] = string(value)
 		}
